@@ -769,3 +769,117 @@ def _visit_call2(self, node):
 
 Rewriter.visit_Call = _visit_call2
 SInt.__hash__ = lambda self: 0x51A7     # constant: dict/set lookups fall back to __eq__ (forks on equality, not on the value)
+
+
+# ---- integers that remember their text (so str() / format() need no div/mod) -------------------------
+_bstr_int_plain = bstr_int
+
+
+def bstr_int(s):          # noqa: F811
+    n = _bstr_int_plain(s)
+    n.src = s             # canonical rendering when the field was generated canonical (no leading zeros, no '-0')
+    return n
+
+
+_int_field_plain = int_field
+
+
+def int_field(eng, name, maxdigits=4, allow_neg=True, canonical=True):      # noqa: F811
+    n, b = _int_field_plain(eng, name, maxdigits, allow_neg)
+    if canonical:
+        nd = z3.Int(name + "_nd")
+        d0 = z3.Int(name + "_d0")
+        eng.axioms.append(z3.Implies(nd > 1, d0 != 0))
+        if allow_neg:
+            eng.axioms.append(z3.Implies(z3.Bool(name + "_neg"), n.e != 0))
+    n.src = b
+    return n, b
+
+
+def _sx_str2(self, x, *a):
+    if isinstance(x, SInt):
+        src = getattr(x, "src", None)
+        if src is not None:
+            return src
+        return _sint_str(self.eng, x.e, 6)
+    if isinstance(x, (BStr, Rope)):
+        return x
+    return builtins.str(x, *a)
+
+
+SX.str = _sx_str2
+_sx_int_prev = SX.int
+
+
+def _sx_int2(self, x, *a):
+    if isinstance(x, SInt):
+        return x
+    return _sx_int_prev(self, x, *a)
+
+
+SX.int = _sx_int2
+_sx_fmt_prev = SX.fmt
+
+
+def _sx_fmt2(self, v, conv, spec):
+    if isinstance(spec, (BStr, Rope)):
+        spec = const_value(spec)
+    if isinstance(v, SInt):
+        s = _sx_str2(self, v)
+        if not spec:
+            return s
+        import re as _re
+        m = _re.fullmatch(r"([<>]?)(\d+)d?", spec)
+        if not m:
+            raise NotImplementedError(f"format spec {spec!r} on a symbolic int")
+        return s.ljust(int(m.group(2))) if m.group(1) == "<" else s.rjust(int(m.group(2)))
+    return _sx_fmt_prev(self, v, conv, spec)
+
+
+SX.fmt = _sx_fmt2
+
+
+def _rope_ljust(self, n, fill=" "):
+    return self.flatten().ljust(n, fill)
+
+
+def _rope_rjust(self, n, fill=" "):
+    return self.flatten().rjust(n, fill)
+
+
+Rope.ljust = _rope_ljust
+Rope.rjust = _rope_rjust
+Rope.__getitem__ = lambda self, i: self.flatten()[i]
+Rope.isalpha = lambda self: self.flatten().isalpha()
+Rope.isdigit = lambda self: self.flatten().isdigit()
+Rope.upper = lambda self: self.flatten().upper()
+Rope.lower = lambda self: self.flatten().lower()
+Rope.endswith = lambda self, p: self.flatten().endswith(p)
+
+
+def _visit_joined(self, node):
+    """f-strings: format specs may themselves be f-strings (constant here); pass them as plain strings"""
+    self.generic_visit(node)
+    parts = []
+    for v in node.values:
+        if isinstance(v, ast.Constant):
+            parts.append(v)
+        else:
+            conv = {-1: None, 115: "s", 114: "r", 97: "a"}[v.conversion]
+            spec = v.format_spec if v.format_spec is not None else ast.Constant(None)
+            parts.append(ast.Call(ast.Attribute(ast.Name("_sx", ast.Load()), "fmt", ast.Load()), [v.value, ast.Constant(conv), spec], []))
+    return ast.Call(ast.Attribute(ast.Name("_sx", ast.Load()), "fstr", ast.Load()), [ast.List(parts, ast.Load())], [])
+
+
+Rewriter.visit_JoinedStr = _visit_joined
+_fstr_prev = SX.fstr
+
+
+def _sx_fstr2(self, parts):
+    parts = [p for p in parts]
+    if not any(isinstance(p, (BStr, Rope)) for p in parts):
+        return "".join(parts)
+    return Rope(self.eng, parts)._norm()
+
+
+SX.fstr = _sx_fstr2
